@@ -414,7 +414,8 @@ void finishJob(const Ctx& c, AloneJob& j, int slot) {
   std::vector<uint64_t> o(a.obs.begin(), a.obs.end());
   std::sort(o.begin(), o.end());
   for (auto x : o) h = fnv(std::to_string(x), h);
-  for (auto& kv : a.counters) h = fnv(kv.first + "=" + std::to_string(kv.second), h);
+  for (auto& kv : a.counters)
+    if (kv.first.rfind("nd_", 0) != 0) h = fnv(kv.first + "=" + std::to_string(kv.second), h);  // nd_ = may legitimately differ between runs
   j.obsHash = h;
   if (j.timedOut) {
     j.vs.push_back({c.d->id() + "|" + c.d->klass(j.idx) + "|hang",
@@ -757,6 +758,7 @@ int main(int argc, char** argv, Driver& d) {
       }
     }
     size_t nGate = jobs.size();
+    size_t tieBreaks = 0;
     int nDet = (nowMs() - t0) / 1000.0 < deadline * 0.8 ? 4 : 1;
     for (int k = 0; k < nDet; k++) {
       size_t idx = nDet == 1 ? 0 : (size_t)((c.N - 1) * (double)k / (nDet - 1));
@@ -777,9 +779,22 @@ int main(int argc, char** argv, Driver& d) {
                        std::to_string(jobs[k].idx) + " did not reproduce on replay";
     }
     for (size_t k = nGate; k + 1 < jobs.size(); k += 2) {
-      if (jobs[k].obsHash != jobs[k + 1].obsHash || jobs[k].vs.size() != jobs[k + 1].vs.size())
-        harnessError = "HARNESS-NONDETERMINISM: scenario " + std::to_string(jobs[k].idx) +
-                       " observed differently on two runs: " + d.describe(jobs[k].idx);
+      if (jobs[k].obsHash != jobs[k + 1].obsHash || jobs[k].vs.size() != jobs[k + 1].vs.size()) {
+        bool settled = false;
+        if (d.tieBreakNondeterminism()) {
+          // drivers that run real threads over real kernel objects: a third run decides (two equal observations out of three)
+          std::vector<AloneJob> third(1);
+          third[0].idx = jobs[k].idx;
+          third[0].timeoutSec = d.scenarioTimeoutSec() * 2;
+          runJobs(c, third, 1);
+          auto same = [&](const AloneJob& a, const AloneJob& b) { return a.obsHash == b.obsHash && a.vs.size() == b.vs.size(); };
+          settled = same(third[0], jobs[k]) || same(third[0], jobs[k + 1]);
+          tieBreaks++;
+        }
+        if (!settled)
+          harnessError = "HARNESS-NONDETERMINISM: scenario " + std::to_string(jobs[k].idx) +
+                         " observed differently on two runs: " + d.describe(jobs[k].idx);
+      }
     }
   }
 
